@@ -17,6 +17,13 @@ extern "C"
 #include <igris/util/ctype.h>
 }
 using std::string;
+// the second asan unit is built with -funsigned-char -DVF_REDUCED (ARM-like plain char: the compat sources AND the
+// references/generators here are compiled that way) and runs a reduced workload
+#ifdef VF_REDUCED
+static const bool REDUCED = true;
+#else
+static const bool REDUCED = false;
+#endif
 
 extern "C"
 {
@@ -973,12 +980,14 @@ static const string S7("\x01" "Aaz\x7F\x80\xFF", 7);
 static const string S4("Aa\x80z", 4);
 static const std::vector<string> &uni_single() // single-string routines: all strings of length <= 3 (quick) / 4 over 7 symbols
 {
-    static std::vector<string> u = universe(S7, vf::thorough() ? 4 : 3);
+    static std::vector<string> u = universe(S7, REDUCED ? 2 : vf::thorough() ? 4 : 3);
     return u;
 }
 static const std::vector<string> &uni_pair() // pair routines
 {
     static std::vector<string> u = [] {
+        if (REDUCED)
+            return universe(S7, 2);
         if (vf::thorough())
             return universe(S7, 3);
         std::vector<string> a = universe(S7, 2), b = universe(S4, 3);
@@ -1002,7 +1011,7 @@ enum
     M_MEMRCHR,
     M_COUNT
 };
-static size_t mem_maxlen() { return vf::thorough() ? 72 : 40; }
+static size_t mem_maxlen() { return REDUCED ? 33 : vf::thorough() ? 72 : 40; }
 static uint64_t mem_count() { return M_COUNT * (mem_maxlen() + 1); }
 static void mem_run(uint64_t idx)
 {
@@ -1249,7 +1258,7 @@ enum
     R_COUNT
 };
 static size_t rand_maxlen() { return vf::thorough() ? 96 : 44; }
-static uint64_t rand_count() { return (uint64_t)R_COUNT * (vf::thorough() ? 12000 : 150); }
+static uint64_t rand_count() { return (uint64_t)R_COUNT * (REDUCED ? 25 : vf::thorough() ? 12000 : 150); }
 static void rand_run(uint64_t idx)
 {
     int g = (int)(idx % R_COUNT);
@@ -1346,7 +1355,7 @@ VF_SUITE(random_long, rand_count, rand_run)
 static const string TOKALPHA("a, \x80", 4);
 static const std::vector<string> &tok_universe()
 {
-    static std::vector<string> u = universe(TOKALPHA, vf::thorough() ? 6 : 5);
+    static std::vector<string> u = universe(TOKALPHA, REDUCED ? 3 : vf::thorough() ? 6 : 5);
     return u;
 }
 static uint64_t tok_count() { return tok_universe().size(); }
